@@ -190,6 +190,54 @@ CHECKS = {
          'hypernym paths through placeholders.',
     note='Trusted: TLC, materialiser. relation_map() is a mapping and keeps one target per relation key.',
     design='DESIGN.md section 4 C12'),
+ 'C01': dict(
+    engine='lmf',
+    category='model_checking',
+    technique='TLA+ WnLmf document model (relational normal form) with MC_Lmf; everything the public API reports for each added lexicon '
+              'is recorded and compared by TLC with the document tables (Judge_C01)',
+    text='Documents are held in a semantic normal form of 16 tables (defaults explicit, empty = absent, order in index columns). For random '
+         'valid resources of every LMF version with every optional attribute/child, metadata on every element and adversarial Unicode / '
+         'XML-special payloads, added under several batch sizes, TLC compares lexicon attributes, words, forms with script/id, tags, '
+         'pronunciations, senses in entry order with examples/counts/frames/adjposition/lexicalized/metadata, synsets with pos, ILI (incl. '
+         'proposed + definition), first definition, examples, lexfile, lexicalized, metadata and members in declared order, table by table.',
+    note='Trusted: TLC, the materialiser (independent of wn.lmf.dump), the flattener, string equality of payloads. Extension contributions to '
+         'base entities are checked on relational worlds in C04/C10/C11.',
+    design='DESIGN.md section 4 C01'),
+ 'C02': dict(
+    engine='lmf',
+    category='model_checking',
+    technique='TLA+ WnLmf Project(T, version) with MC_Lmf (TLC: idempotent, monotone, identity on expressible documents); '
+              'load(dump(R, v)) for 4 versions and dump.load fixed points recorded and judged by TLC (Judge_C02)',
+    text='Project says what each LMF version can express of a resource; TLC proves its algebra on a document whose optional features are '
+         'switched on one by one. Random resources in loader normal form (plain lexicons and extensions with all External* patterns, '
+         'dependencies, pronunciations, tags, counts, entry- and lexicon-level frames, every optional attribute) are dumped in all four '
+         'versions and loaded back; TLC requires equality with Project(R, v) table by table, byte-identical re-dump, acceptance by is_lmf, '
+         'and an unchanged argument; foreign files incl. xml:space="preserve" are checked for the dump.load fixed point.',
+    note='Trusted: TLC, the flattener (semantic normal form). WN-LMF 1.0 cannot express extensions: nothing is claimed there.',
+    design='DESIGN.md section 4 C02'),
+ 'C03': dict(
+    engine='lmf',
+    category='model_checking',
+    technique='TLA+ WnLmf Project + frame-link semantics; export in 4 versions x source versions recorded, loaded and re-imported; judged by TLC (Judge_C03)',
+    text='For random non-extension resources (1-2 lexicons per export) of every source version the exported file of every version is loaded and '
+         'compared by TLC with Project(document, version): entries, forms, tags, pronunciations, senses, synsets, ILIs incl. proposed, all '
+         'definitions with language and source sense, examples, counts, relations with metadata (order-insensitive), dependencies, metadata; '
+         'sense-frame links are compared as links whatever syntax carries them; each export is added to an empty database and the digest of '
+         'everything the public API reports must equal that of the source database when the version can express the lexicon.',
+    note='Trusted: TLC, flattener, API observer digest. One listed known finding (links of id-less frames in 1.1+ exports).',
+    design='DESIGN.md section 4 C03'),
+ 'C20': dict(
+    engine='lmf',
+    category='model_checking',
+    technique='TLA+ WnLmf acceptance rules (element tables per version, single-valued children, required attributes, header) with MC_Accepts; '
+              'single-fault mutations of valid documents run through load/add/is_lmf/scan_lexicons and judged by TLC (Judge_C20)',
+    text='Accepts(version, mutation) is an explicit TLA+ predicate checked for totality and consistency by TLC over the whole mutation '
+         'alphabet. Valid generated documents of every version are mutated one fault at a time (attribute removed, element renamed or of a '
+         'later version, child duplicated, end tag removed/mismatched, truncation, header faults, quoting/order changes); TLC checks that '
+         'load() raises exactly for rejected documents, neutral mutations load identically, add() raises and leaves the raw database '
+         'unchanged, is_lmf() agrees with the header rule, and scan_lexicons() equals the lexicons of the full load in order.',
+    note='Trusted: TLC, the mutation generator (line-based on the materialiser output), expat for well-formedness in general.',
+    design='DESIGN.md section 4 C20'),
 }
 
 REASON_TODO = 'check not built yet in this round (planned, see DESIGN.md section 8)'
@@ -233,6 +281,8 @@ def main():
              'kind_free_text': 'TLA+ comprehensions for the 18 validator checks + TLC judge'},
             {'name': 'query', 'path': 'spec/WnQuery.tla', 'serves_properties': ['C04', 'C10', 'C11', 'C12'],
              'kind_free_text': 'TLA+ model of Wordnet selection, navigation, relations and ILI expansion + TLC judge'},
+            {'name': 'lmf', 'path': 'spec/WnLmf.tla', 'serves_properties': ['C01', 'C02', 'C03', 'C20'],
+             'kind_free_text': 'TLA+ document model (semantic normal form tables), Project per version, acceptance rules + TLC judge'},
         ],
         'checks': checks,
         'not_applicable': [{'property_id': p['id'], 'reason': REASON_TODO}
